@@ -224,11 +224,15 @@ func corruptValues(ref []byte, f field) (vals [][]byte) {
 // claimed element - for an input that cannot contain a fraction of them - is an unchecked length: it is
 // reported (slope and extrapolation in the message, confirmed by ONE real allocation above the limit per
 // object and decoder) and every corruption that would set it to >= 2^19 is skipped, not executed.
-const probeLen = 1 << 19
+const (
+	probeLen   = 1 << 19
+	probeSmall = 1 << 14
+)
 
 type danger struct {
 	field
-	alloc     uint64 // bytes allocated by the 2^20 probe
+	alloc     uint64 // bytes allocated by the harmless probe
+	probed    uint64 // the length the probe wrote (2^14 or 2^19)
 	confirmed string // result of the real over-the-limit allocation that confirmed this decoder function
 	site      string // decoder function that reads (hence trusts) the field, "" if the trace does not name one
 }
@@ -285,6 +289,13 @@ func (x *lc) dangers(d decoder, ref []byte) []danger {
 			}
 			return ""
 		}
+		// With a trace, only byte ranges the decoder consumed as ONE 8- or 4-byte unit are integer fields; windows
+		// that straddle two fields are not probed (a probe there mis-frames the rest of the stream and says
+		// nothing about a length). Without a trace every small-valued window is a candidate.
+		isField := map[[2]int]bool{}
+		for _, sg := range owners {
+			isField[[2]int{sg.Lo, sg.Hi}] = true
+		}
 		enc := func(f field, v uint64) []byte {
 			b := make([]byte, f.width)
 			putField(b, field{0, f.width}, v)
@@ -292,7 +303,7 @@ func (x *lc) dangers(d decoder, ref []byte) []danger {
 		}
 		for o := 0; o < len(ref); o++ {
 			for _, w := range []int{8, 4} {
-				if o+w > len(ref) {
+				if o+w > len(ref) || (len(owners) > 0 && !isField[[2]int{o, o + w}]) {
 					continue
 				}
 				f := field{o, w}
@@ -304,11 +315,24 @@ func (x *lc) dangers(d decoder, ref []byte) []danger {
 				if tooDangerous(r, data, o, o+w) {
 					continue // overlaps a length already found: this write would set that one to >= 2^19
 				}
-				out := runJob(hdr, x.corruptJob(d, o, enc(f, probeLen), false))
-				if out.Fatal != "" || out.Alloc < probeLen || out.Alloc <= 16*uint64(len(ref))+1<<16 {
+				// Two probes, so that the harmless probe stays cheap for fat elements: 2^14 first (a length of
+				// 8-byte-or-larger elements shows as >= 128 KiB), 2^19 only if that showed nothing (1..7-byte
+				// elements: >= 512 KiB). A probe that kills the helper with "out of memory" carries the size of the
+				// refused request and is judged like one that was satisfied. A false positive of a probe costs one
+				// confirmation job and is dropped there.
+				probed := uint64(probeSmall)
+				out := runJob(hdr, x.corruptJob(d, o, enc(f, probeSmall), false))
+				if out.Fatal != "" && out.Fatal != "out-of-memory" {
 					continue
 				}
-				dz := danger{field: f, alloc: out.Alloc, site: owner(o)}
+				if out.Alloc < 8*probeSmall {
+					probed = probeLen
+					out = runJob(hdr, x.corruptJob(d, o, enc(f, probeLen), false))
+					if (out.Fatal != "" && out.Fatal != "out-of-memory") || out.Alloc < probeLen || out.Alloc <= 16*uint64(len(ref))+1<<16 {
+						continue
+					}
+				}
+				dz := danger{field: f, alloc: out.Alloc, probed: probed, site: owner(o)}
 				// Confirmation by one real allocation above the limit, once per decoder function that trusts the
 				// length (fields nobody owns are confirmed individually). A decoder that caps the length fails the
 				// confirmation: its fields are not findings, and their large values are executed like any other.
@@ -321,7 +345,7 @@ func (x *lc) dangers(d decoder, ref []byte) []danger {
 					// smallest power of two whose extrapolated allocation exceeds twice the limit (the slope measured
 					// on the small probe includes fixed overheads)
 					v := uint64(probeLen)
-					for float64(v)*float64(out.Alloc)/probeLen <= 2*float64(allocLimit(len(ref))) {
+					for float64(v)*float64(out.Alloc)/float64(probed) <= 2*float64(allocLimit(len(ref))) {
 						v <<= 1
 					}
 					o3 := runJob(hdr, x.corruptJob(d, o, enc(f, v), false))
@@ -404,8 +428,8 @@ func corruptionValue(x *lc, d decoder) bool {
 				if s == "" {
 					s, k = subj, "unbounded-alloc"
 				}
-				x.c.Fail(sig("corruption", s, k), "%s [%s] via %s: the %d-byte field at offset %d is an unchecked length: set to 2^19 the decoder allocated %d KiB for a %d-byte input (%.1f bytes per claimed element, i.e. %.0f GiB at 2^31); larger values are not executed; %s",
-					x.e.name, x.label(), d.name, w, f.off, z.alloc>>10, len(ref), float64(z.alloc)/probeLen, float64(z.alloc)/probeLen*2, z.confirmed)
+				x.c.Fail(sig("corruption", s, k), "%s [%s] via %s: the %d-byte field at offset %d is an unchecked length: set to 2^%d the decoder allocated %d KiB for a %d-byte input (%.1f bytes per claimed element, i.e. %.0f GiB at 2^31); values >= 2^19 are not executed; %s",
+					x.e.name, x.label(), d.name, w, f.off, bits.Len64(z.probed)-1, z.alloc>>10, len(ref), float64(z.alloc)/float64(z.probed), float64(z.alloc)/float64(z.probed)*2, z.confirmed)
 			}
 		}
 		for _, val := range corruptValues(ref, f) {
